@@ -1,2 +1,4 @@
 /* Placed immediately after the objects compiled from /repo at link time. */
 void verif_repo_text_end(void) {}
+char verif_repo_data_end = 1;
+char verif_repo_bss_end;
